@@ -116,12 +116,6 @@ Definition run_ok (p : pipeline) (o : str) (kw : alist) (full : bool) (obs : sx)
   | _ => false
   end.
 
-(* the root arguments of o, from the meaning: the names that the evaluation of o without any supplied keyword
-   would have to read from the keywords or from defaults *)
-Definition spec_roots (p : pipeline) (o : str) : list str :=
-  sort_strs (dedup (flat_map (fun f => filter (fun cur => negb (ahas (bound f) cur) && negb (is_output p cur))
-                                              (pnames f)) (needed_top p [] o))).
-
 (* fixed symbolic root values for judging argument combinations *)
 Definition root_val (n : str) : str := s "v_" ++ n.
 Definition combo_ok (p : pipeline) (o : str) (roots : list str) (c : list str) : bool :=
